@@ -540,7 +540,11 @@ class VTCase(unittest.TestCase):
             return
         if s == 'chdir':
             # a test that changes the working directory and leaves it changed
-            os.chdir('/')
+            # (to an EMPTY scratch directory: a runner that resolves a relative
+            # search path there must not find - or clean up - anything)
+            import tempfile
+            os.chdir(tempfile.mkdtemp(prefix='vt-chdir-',
+                                      dir=os.environ.get('VT_SCRATCH_RUN') or '/dev/shm'))
             return
         if s == 'settrace':
             def _tracer(frame, event, arg):
